@@ -24,7 +24,7 @@ NodeLen(nd) == IF nd.kind = "file" THEN 4 + 2 * Len(Encode(nd.path)) ELSE NodeTy
 RECURSIVE PathLen(_)
 PathLen(nodes) == IF nodes = <<>> THEN 4 ELSE NodeLen(Head(nodes)) + PathLen(Tail(nodes))    \* + End node
 (* text rendering (UEFI 10.6.1.5): HD(Partition,Type,Signature,Start,Size), File(path) *)
-HdType(f) == IF f = 1 THEN "MBR" ELSE IF f = 2 THEN "GPT" ELSE "num"
+HdType(f) == IF f = 1 THEN "MBR" ELSE IF f = 2 THEN "GPT" ELSE ToString(f)      \* reserved values are rendered as numbers
 Render(nd) == CASE nd.kind = "hd" -> [form |-> "HD", part |-> nd.part, type |-> HdType(nd.format), start |-> nd.start, size |-> nd.size]
                 [] nd.kind = "file" -> [form |-> "File", path |-> nd.path]
                 [] OTHER -> [form |-> "none"]
